@@ -4,7 +4,7 @@
     // C02 "four operators on doubles, division guarded", C13 "result keeps the left
     // operand's NumberType".  All f64 pairs, all four operators, both operand orders.
     #[kani::proof]
-    #[kani::stub_verified(do_divition)]
+    #[kani::stub(crate::tools::do_divition, crate::verif_support::div_probe)]
     fn calc_number_number() {
         let cfg = empty_config();
         let a: f64 = kani::any();
@@ -24,33 +24,54 @@
         let (l, rr) = if on_left { (a, b) } else { (b, a) };
         kani::cover!(k == 1 && rr == 0.0, "COVER:division_by_zero");
         kani::cover!(k == 3 && !on_left, "COVER:sub_swapped");
-        assert!(same_f64(n.0, spec_binop(k, l, rr)), "OBL:ieee_value_of_the_operator_in_operand_order");
+        if k == 1 && div_calls() > 0 {
+            // modular: the quotient is whatever do_divition returns for exactly (l, rr)
+            assert!(div_calls() == 1 && div_was(0, l, rr), "OBL:div_divides_left_by_right_in_operand_order");
+            assert!(same_f64(n.0, div_call(0).2), "OBL:ieee_value_of_the_operator_in_operand_order");
+        } else {
+            assert!(same_f64(n.0, spec_binop(k, l, rr)), "OBL:ieee_value_of_the_operator_in_operand_order");
+        }
         assert!(n.1 == nt, "OBL:keeps_receiver_number_type");
     }
 
-    // C05: 'X + p%' / 'X - p%': the percent operand is first turned into that share of X.
-    // Pinned IEEE expression: X (+|-) div(X,100)*p   (V-real lemma: == X*(1 +|- p/100)).
+    // C05: 'X + p%' / 'X - p%': the percent operand is first turned into "that share of X" by
+    // the operand's own get_number (PercentItem::get_number, proved in percent:percent_share to be
+    // div(X,100)*p), then added / subtracted.  Here the operand is a stand-in that reports
+    // PercentItem's TypeId and answers get_number with an arbitrary recorded value s, so the
+    // obligation is "result == X (+|-) s and the share was asked of X itself" for ANY callee.
+    #[derive(Debug)]
+    struct ShareProbe(f64, core::cell::Cell<u64>, core::cell::Cell<u32>);
+    impl DataItem for ShareProbe {
+        fn unary(&self, _: UnaryType) -> Rc<dyn DataItem> { Rc::new(NumberItem(0.0, NumberType::Decimal)) }
+        fn is_same(&self, _: &dyn Any) -> bool { false }
+        fn as_token_type(&self) -> TokenType { TokenType::Percent(0.0) }
+        fn as_any(&self) -> &dyn Any { self }
+        fn get_number(&self, other: &dyn DataItem) -> f64 { self.1.set(other.get_underlying_number().to_bits()); self.2.set(self.2.get() + 1); self.0 }
+        fn get_underlying_number(&self) -> f64 { self.0 }
+        fn type_name(&self) -> &'static str { "PERCENT" }
+        fn type_id(&self) -> TypeId { TypeId::of::<PercentItem>() }
+        fn calculate(&self, _: &SmartCalcConfig, _: bool, _: &dyn DataItem, _: OperationType) -> Option<Rc<dyn DataItem>> { None }
+        fn print(&self, _: &SmartCalcConfig, _: &Session) -> String { String::new() }
+    }
+
     #[kani::proof]
-    #[kani::stub_verified(do_divition)]
     fn calc_number_percent() {
         let cfg = empty_config();
         let x: f64 = kani::any();
-        let p: f64 = kani::any();
+        let s: f64 = kani::any();
         let k: u8 = kani::any();
         kani::assume(k == 0 || k == 3);
         let me = NumberItem(x, NumberType::Decimal);
-        let other = PercentItem(p);
+        let other = ShareProbe(s, core::cell::Cell::new(0), core::cell::Cell::new(0));
         let r = me.calculate(&cfg, true, &other, op_of(k));
         assert!(r.is_some(), "OBL:number_op_percent_is_defined");
         let r = r.unwrap();
         let n = r.as_any().downcast_ref::<NumberItem>();
         assert!(n.is_some(), "OBL:result_is_a_number");
-        let share = spec_div(x, 100.0) * p;
-        let want = if k == 0 { x + share } else { x - share };
-        kani::cover!(k == 3 && p == 100.0 && x == 5.0, "COVER:hundred_percent_off");
+        assert!(other.2.get() == 1 && other.1.get() == x.to_bits(), "OBL:share_is_taken_of_x_itself");
+        let want = if k == 0 { x + s } else { x - s };
+        kani::cover!(k == 3, "COVER:minus");
         assert!(same_f64(n.unwrap().0, want), "OBL:x_plus_minus_share_of_x");
-        // the share itself, through the real PercentItem::get_number
-        assert!(same_f64(other.get_number(&me), share), "OBL:percent_share_is_x_div_100_times_p");
     }
 
     #[kani::proof]
@@ -82,7 +103,6 @@
     }
 
     #[kani::proof]
-    #[kani::stub_verified(do_divition)]
     fn canary_number() {
         let cfg = empty_config();
         let a: f64 = kani::any();
